@@ -249,6 +249,8 @@ def render_prop(c) -> str:  # type: ignore[no-untyped-def]
         return f"{render(c[2])} {c[1]} {render(c[3])}"
     if c[0] == "bvar":
         return f"{c[1]} = true"
+    if c[0] == "prop":  # a decidable proposition given as Lean text (used by extractors built on this one)
+        return c[1]
     if c[0] == "opaque":
         raise Unsupported(f"a condition that is not understood decides an extracted value: {c[1][:80]}")
     raise Unsupported(f"cannot print the test {c[0]}")
@@ -461,7 +463,7 @@ def simp(t, env: dict):  # type: ignore[no-untyped-def]
     if k == "isnone":
         st = env.get(("opt", t[1]))
         return t if st is None else (TRUE if st else FALSE)
-    if k in ("bvar", "opaque"):
+    if k in ("bvar", "opaque", "prop"):
         st = env.get(t)
         return t if st is None else (TRUE if st else FALSE)
     if k == "cmp":
@@ -504,7 +506,7 @@ def ready_atoms(t, acc: set) -> set:  # type: ignore[no-untyped-def]
         ready_atoms(t[3], acc)
     elif k == "isnone":
         acc.add(("opt", t[1]))
-    elif k in ("bvar", "opaque"):
+    elif k in ("bvar", "opaque", "prop"):
         acc.add(t)
     elif k == "cmp":
         if if_free(t[2]) and if_free(t[3]):
@@ -530,7 +532,7 @@ def first_atoms(t, acc: set) -> set:  # type: ignore[no-untyped-def]
         first_atoms(t[1], acc)
     elif k in ("match", "isnone"):
         acc.add(("opt", t[1]))
-    elif k in ("bvar", "opaque"):
+    elif k in ("bvar", "opaque", "prop"):
         acc.add(t)
     elif k == "cmp":
         if if_free(t[2]) and if_free(t[3]):
@@ -556,6 +558,8 @@ def atom_order(a):  # type: ignore[no-untyped-def]
         return (0, _rank(a[1]), a[1])
     if a[0] == "bvar":
         return (1, _rank(a[1]), a[1])
+    if a[0] == "prop":
+        return (1, 50, a[1])
     if a[0] == "cmp":
         kx, ky = sorted([key_of(a[2]), key_of(a[3])])
         return (2, size_of(a[2]) + size_of(a[3]), kx, ky, a[1])
@@ -704,12 +708,25 @@ def unify(a: Num, b: Num):  # type: ignore[no-untyped-def]
     raise Unsupported(f"cannot unify {a.ty} and {b.ty}")
 
 
+NONE_AS: dict = {}  # type of an Optional-valued term -> the term that stands for `None` (set by extractors built on this one)
+
+
+def none_as(a, b):  # type: ignore[no-untyped-def]
+    """`None` meeting a term of a registered Optional type becomes that type's `none` term."""
+    if isinstance(a, NoneV) and isinstance(b, Num) and b.ty in NONE_AS:
+        return Num(NONE_AS[b.ty], b.ty), b
+    if isinstance(b, NoneV) and isinstance(a, Num) and a.ty in NONE_AS:
+        return a, Num(NONE_AS[a.ty], a.ty)
+    return a, b
+
+
 def ite(c: Num, a, b):  # type: ignore[no-untyped-def]
     """`if c then a else b` over symbolic values (paths that do not reach the target are dropped)."""
     if isinstance(a, Bottom):
         return b
     if isinstance(b, Bottom):
         return a
+    a, b = none_as(a, b)
     if isinstance(a, Tup) and isinstance(b, Tup) and len(a.items) == len(b.items):
         return Tup([ite(c, x, y) for x, y in zip(a.items, b.items)])
     if isinstance(a, Num) and isinstance(b, Num):
@@ -1372,6 +1389,7 @@ class Sym:
             return some_val
         if isinstance(some_val, Bottom):
             return none_val
+        none_val, some_val = none_as(none_val, some_val)
         if isinstance(none_val, Tup) and isinstance(some_val, Tup) and len(none_val.items) == len(some_val.items):
             return Tup([Sym.match_opt(opt, a, b) for a, b in zip(none_val.items, some_val.items)])
         if isinstance(none_val, Num) and isinstance(some_val, Num):
